@@ -7,6 +7,8 @@ from ref import capgen, readback, synth
 
 PROP = "Properties/C03.v"
 KNOWN_QUIC_LOSS = "quic-loss-not-a-prefix"
+SUITE_CODES = []
+SUITE_CODES_SHA384 = []
 REMOVING = ("delete-packet", "cut-before", "cut-after", "remove-keys", "unknown-suite", "foreign-http", "foreign-udp")
 
 
@@ -63,6 +65,27 @@ def inject(rng, case, victim, fault, hist):
                     if len(pl) >= off + 2:
                         pl[off:off + 2] = b"\xfa\xfa"
                         pk[i] = rebuild(pk[i], bytes(pl))
+                break
+    elif fault == "hello-mismatch" and victim.kind == "tls":
+        # the ServerHello is overwritten in place: record version, handshake version and cipher suite are replaced by other well-formed values
+        # (any SSL 3.0 .. TLS 1.2 version bytes, any suite of TLExport's table): combinations the key derivation was not written for
+        for i in data:
+            if pk[i]["isserver"]:
+                pl = bytearray(readback.parse_frame(pk[i]["frame"])["payload"])
+                off = 5 + 4 + 2 + 32
+                if len(pl) > off and pl[0] == 22 and pl[5] == 2:
+                    off += 1 + pl[off]
+                    if len(pl) >= off + 2:
+                        # half of the time the oldest version with a suite that needs the longest key block (what SSL 3.0's PRF was not sized for)
+                        stress = rng.randrange(2) == 0
+                        if stress or rng.randrange(3):
+                            pl[1:3] = b"\x03\x00" if stress else rng.choice([b"\x03\x00", b"\x03\x01", b"\x03\x02", b"\x03\x03"])
+                        if rng.randrange(3):
+                            pl[9:11] = rng.choice([b"\x03\x00", b"\x03\x01", b"\x03\x02", b"\x03\x03"])
+                        if stress or rng.randrange(3):
+                            pl[off:off + 2] = rng.choice(SUITE_CODES_SHA384 if stress else SUITE_CODES).to_bytes(2, "big")
+                        pk[i] = rebuild(pk[i], bytes(pl))
+                        hist["hello-mismatch=%s/%s/%04x" % (bytes(pl[1:3]).hex(), bytes(pl[9:11]).hex(), int.from_bytes(pl[off:off + 2], "big"))] += 0
                 break
     elif fault in ("flip-bit", "overwrite", "shorten") and data:
         i = rng.choice(data)
@@ -181,6 +204,10 @@ def main():
     impl = Impl()
     from tlexport import cipher_suite_parser as csp
     table = tlsgen.suite_table(csp)
+    global SUITE_CODES
+    SUITE_CODES = sorted(table)
+    global SUITE_CODES_SHA384
+    SUITE_CODES_SHA384 = [c for c in SUITE_CODES if table[c].endswith("SHA384")]
     okr, log = build_runner()
     m = ModelRunner(oracle.answer) if okr else None
     if not okr:
@@ -191,7 +218,7 @@ def main():
     n = 10 if ck.tier == "quick" else 150
     n_model = 16 if ck.tier == "quick" else 200
     n_crafted_model = 8 if ck.tier == "quick" else 80
-    faults = ["delete-packet", "cut-before", "cut-after", "remove-keys", "random-keys", "unknown-suite", "flip-bit", "overwrite", "shorten", "short-record", "short-record", "short-record", "foreign-http", "foreign-udp", "crafted-initial", "crafted-initial"]
+    faults = ["delete-packet", "cut-before", "cut-after", "remove-keys", "random-keys", "unknown-suite", "flip-bit", "overwrite", "shorten", "short-record", "short-record", "short-record", "foreign-http", "foreign-udp", "crafted-initial", "crafted-initial", "hello-mismatch", "hello-mismatch", "hello-mismatch", "hello-mismatch"]
     for i in range(n):
         conns = []
         k = rng.choice([2, 3, 4])
@@ -222,7 +249,7 @@ def main():
         base = by_flow(out0)
         for fault in faults:
             victim = rng.choice(conns)
-            if fault in ("unknown-suite", "short-record") and victim.kind != "tls":
+            if fault in ("unknown-suite", "short-record", "hello-mismatch") and victim.kind != "tls":
                 tl = [c for c in conns if c.kind == "tls"]
                 if not tl:
                     continue
@@ -298,7 +325,7 @@ def main():
     impl.cleanup()
     ck.cov["traces_validated_against_impl"] = hist["model_runs"]
     ck.cov["rule"] = ("captures of 2..4 interleaved healthy TLS/QUIC connections; one victim flow gets one fault from {delete a packet, cut its capture before/after a packet, "
-                      "remove a subset of its key-log lines, replace its secrets by random ones, overwrite the suite id in its ServerHello, flip a bit / overwrite bytes / shorten a "
+                      "remove a subset of its key-log lines, replace its secrets by random ones, overwrite the suite id in its ServerHello (unknown id; or version bytes and suite replaced by other well-formed values), flip a bit / overwrite bytes / shorten a "
                       "TCP or UDP payload} or foreign traffic is added {plain HTTP on a watched port, arbitrary UDP payloads of 1..1500 bytes incl. QUIC-looking ones, well-formed Initial "
                       "datagrams with further hello messages inside a QUIC victim that has done key updates}; the run must "
                       "complete, every bystander flow must be exported exactly as without the fault, no new flow may appear, and for information-removing faults the victim's "
